@@ -349,9 +349,11 @@ def w_cdda(pid, tier, seed, job):
     rng = random.Random(job)
     for _ in range(3 if tier == "quick" else 10):
         n = rng.randint(1, 6)
-        fr = [rng.choice([0, 0, 1, 2, 75])]
+        # first-index positions over every FF value and second / minute carries (00:00:55, 00:01:27, 00:02:08 ... are where a
+        # float conversion of MM:SS:FF falls one frame short); bins are all-zero, so they cost nothing
+        fr = [rng.choice([0, 0, 1, 2, 55, 75, 102, 158, 229])]
         for _k in range(n - 1):
-            fr.append(fr[-1] + rng.choice([1, 1, 2, 3, 5, 74, 75, 76]))
+            fr.append(fr[-1] + rng.choice([1, 1, 2, 3, 5, 55, 74, 75, 76, 102, rng.randint(1, 400)]))
         tracks = []
         for k, f0 in enumerate(fr):
             title = None if rng.random() < 0.3 else "T%d %s" % (k + 1, rng.choice(["x", "song", "Ab-c", "q.r"]))
